@@ -4,10 +4,15 @@
 //! Case syntax (one per line):
 //!   zz <i64> | uzz <u64> | vi.enc <i64> | vi.dec <hex> | vi.read <hex> | vi.cmp <hex> <hex>
 //!   blob.enc <hex> | blob.dec <hex> | blob.cmp <hex> <hex>
+//!   ser <val> | wr <val> <cursor> <extra> | de <kind> <cursor> <hexbuf> | cast <val> <kind>
+//! Values: `n`, `b:0|1`, `i:<i32>`, `I:<i64>`, `u:<u32>`, `U:<u64>`, `f:<f32 bits>`, `d:<f64 bits>`, `x:<hex|->`.
 use super::{Case, Engine, Tier};
 use crate::rng::Rng;
 use crate::util::{hex, hex_or_dash, unhex};
-use axmosdb::types::{Blob, DataTypeKind, DataTypeRef, SerializationError};
+use axmosdb::types::{
+    Blob, DataType, DataTypeKind, DataTypeRef, Float32, Float64, Int32, Int64, SerializationError, TypeSystemError,
+    UInt32, UInt64,
+};
 use axmosdb::verif::value as hooks;
 use std::cmp::Ordering;
 
@@ -30,6 +35,111 @@ fn ord_name(o: Ordering) -> &'static str {
         Ordering::Less => "lt",
         Ordering::Equal => "eq",
         Ordering::Greater => "gt",
+    }
+}
+
+const KINDS: [(&str, DataTypeKind); 9] = [
+    ("null", DataTypeKind::Null),
+    ("bool", DataTypeKind::Bool),
+    ("int", DataTypeKind::Int),
+    ("bigint", DataTypeKind::BigInt),
+    ("uint", DataTypeKind::UInt),
+    ("biguint", DataTypeKind::BigUInt),
+    ("float", DataTypeKind::Float),
+    ("double", DataTypeKind::Double),
+    ("blob", DataTypeKind::Blob),
+];
+
+fn parse_kind(s: &str) -> Option<DataTypeKind> {
+    KINDS.iter().find(|(n, _)| *n == s).map(|(_, k)| *k)
+}
+
+fn parse_value(s: &str) -> Option<DataType> {
+    if s == "n" {
+        return Some(DataType::Null);
+    }
+    let (t, v) = s.split_once(':')?;
+    Some(match t {
+        "b" => match v {
+            "0" => DataType::Bool(false.into()),
+            "1" => DataType::Bool(true.into()),
+            _ => return None,
+        },
+        "i" => DataType::Int(Int32(v.parse().ok()?)),
+        "I" => DataType::BigInt(Int64(v.parse().ok()?)),
+        "u" => DataType::UInt(UInt32(v.parse().ok()?)),
+        "U" => DataType::BigUInt(UInt64(v.parse().ok()?)),
+        "f" => DataType::Float(Float32(f32::from_bits(v.parse().ok()?))),
+        "d" => DataType::Double(Float64(f64::from_bits(v.parse().ok()?))),
+        "x" => DataType::Blob(Blob::from_unencoded_slice(&unhex(v)?)),
+        _ => return None,
+    })
+}
+
+fn show_value(v: &DataType) -> String {
+    match v {
+        DataType::Null => "n".into(),
+        DataType::Bool(b) => format!("b:{}", b.value() as u8),
+        DataType::Int(i) => format!("i:{}", i.0),
+        DataType::BigInt(i) => format!("I:{}", i.0),
+        DataType::UInt(i) => format!("u:{}", i.0),
+        DataType::BigUInt(i) => format!("U:{}", i.0),
+        DataType::Float(f) => format!("f:{}", f.0.to_bits()),
+        DataType::Double(f) => format!("d:{}", f.0.to_bits()),
+        DataType::Blob(b) => match b.data() {
+            Ok(d) => format!("x:{}", hex_or_dash(d)),
+            Err(_) => format!("xraw:{}", hex_or_dash(b.as_ref())),
+        },
+    }
+}
+
+/// Bit-exact identity of two values (not `==`, which is what is under test).
+fn same_value(a: &DataType, b: &DataType) -> bool {
+    show_value(a) == show_value(b)
+}
+
+/// A byte buffer whose base address is 8-aligned (bytemuck refuses to reinterpret unaligned memory).
+struct AlignedBuf {
+    words: Vec<u64>,
+    len: usize,
+}
+
+impl AlignedBuf {
+    fn zeroed(len: usize) -> Self {
+        AlignedBuf { words: vec![0u64; len.div_ceil(8) + 1], len }
+    }
+    fn from(bytes: &[u8]) -> Self {
+        let mut b = Self::zeroed(bytes.len());
+        b.as_mut().copy_from_slice(bytes);
+        b
+    }
+    fn as_ref(&self) -> &[u8] {
+        &bytemuck_bytes(&self.words)[..self.len]
+    }
+    fn as_mut(&mut self) -> &mut [u8] {
+        let len = self.len;
+        let p = self.words.as_mut_ptr() as *mut u8;
+        // SAFETY: `words` owns at least `len` initialised bytes
+        unsafe { std::slice::from_raw_parts_mut(p, len) }
+    }
+}
+
+fn bytemuck_bytes(w: &[u64]) -> &[u8] {
+    // SAFETY: any u64 slice is a valid byte slice of 8× the length
+    unsafe { std::slice::from_raw_parts(w.as_ptr() as *const u8, w.len() * 8) }
+}
+
+fn align_up(c: usize, a: usize) -> usize {
+    (c + a - 1) / a * a
+}
+
+fn deser(kind: DataTypeKind, buf: &AlignedBuf, cursor: usize) -> Result<(DataType, usize), String> {
+    match kind.deserialize(buf.as_ref(), cursor) {
+        Ok((r, c)) => match r.to_owned() {
+            Some(v) => Ok((v, c)),
+            None => Err("ok-null".into()),
+        },
+        Err(e) => Err(format!("err {}", ser_err(&e))),
     }
 }
 
@@ -119,6 +229,62 @@ fn exec_line(line: &str) -> String {
             }
             _ => "bad-op".into(),
         },
+        ["ser", v] => match parse_value(v) {
+            Some(v) => match v.serialize() {
+                Ok(bs) => {
+                    let buf = AlignedBuf::from(&bs);
+                    let rt = match deser(v.kind(), &buf, 0) {
+                        Ok((v2, c)) if same_value(&v, &v2) && c == bs.len() => "rt=ok",
+                        _ => "rt=DIFF",
+                    };
+                    let sz = if v.runtime_size() == bs.len() { "" } else { " SIZEDIFF" };
+                    format!("ok {} {}{}", hex_or_dash(&bs), rt, sz)
+                }
+                Err(e) => format!("err {}", ser_err(&e)),
+            },
+            None => "bad-op".into(),
+        },
+        ["wr", v, c, extra] => match (parse_value(v), c.parse::<usize>(), extra.parse::<usize>()) {
+            (Some(v), Ok(c), Ok(extra)) if c <= 4096 && extra <= 4096 => {
+                if v.is_null() {
+                    return match v.serialize() {
+                        Err(e) => format!("err {}", ser_err(&e)),
+                        Ok(_) => "ok-null".into(),
+                    };
+                }
+                let size = v.runtime_size();
+                let mut buf = AlignedBuf::zeroed(align_up(c, v.kind().align()) + size + extra);
+                match v.write_to(buf.as_mut(), c) {
+                    Ok(c2) => {
+                        let rt = match deser(v.kind(), &buf, c) {
+                            Ok((v2, c3)) if same_value(&v, &v2) && c3 == c2 => "rt=ok",
+                            _ => "rt=DIFF",
+                        };
+                        format!("ok cur={} buf={} {}", c2, hex_or_dash(buf.as_ref()), rt)
+                    }
+                    Err(e) => format!("err {}", ser_err(&e)),
+                }
+            }
+            _ => "bad-op".into(),
+        },
+        ["de", k, c, h] => match (parse_kind(k), c.parse::<usize>(), unhex(h)) {
+            (Some(k), Ok(c), Some(bs)) if c <= bs.len() => {
+                let buf = AlignedBuf::from(&bs);
+                match deser(k, &buf, c) {
+                    Ok((v, c2)) => format!("ok {} cur={}", show_value(&v), c2),
+                    Err(e) => e,
+                }
+            }
+            _ => "bad-op".into(),
+        },
+        ["cast", v, k] => match (parse_value(v), parse_kind(k)) {
+            (Some(v), Some(k)) => match v.try_cast(k) {
+                Ok(w) => format!("ok {}", show_value(&w)),
+                Err(TypeSystemError::UnexpectedDataType(_)) => "err cast".into(),
+                Err(_) => "err other".into(),
+            },
+            _ => "bad-op".into(),
+        },
         _ => "bad-op".into(),
     }
 }
@@ -133,6 +299,8 @@ impl Engine for ValueEngine {
         let mut cases = Vec::new();
         gen_varint(rng, scale, &mut cases);
         gen_blob(rng, scale, &mut cases);
+        gen_serialize(rng, scale, &mut cases);
+        gen_cast(rng, scale, &mut cases);
         cases
     }
 }
@@ -417,6 +585,380 @@ fn gen_blob(rng: &mut Rng, scale: u64, cases: &mut Vec<Case>) {
             format!("blob.cmp {} {}", hex_or_dash(&a), hex_or_dash(&b)),
             &["blob.cmp", tag, deep, "nt"],
         ));
+    }
+}
+
+// ---- value grids ---------------------------------------------------------------------------------------------
+
+fn i32_grid() -> Vec<i32> {
+    let mut g = vec![0, 1, -1, 2, -2, 127, 128, 255, 256, i32::MIN, i32::MIN + 1, i32::MAX, i32::MAX - 1];
+    for k in [15u32, 16, 23, 24, 25, 30] {
+        for d in [-3i32, -2, -1, 0, 1, 2, 3] {
+            g.push((1i32 << k) + d);
+            g.push(-(1i32 << k) + d);
+        }
+    }
+    g.sort();
+    g.dedup();
+    g
+}
+
+fn i64_value_grid() -> Vec<i64> {
+    let mut g: Vec<i64> = i32_grid().into_iter().map(|v| v as i64).collect();
+    g.extend([i64::MIN, i64::MIN + 1, i64::MAX, i64::MAX - 1]);
+    for k in [31u32, 32, 33, 52, 53, 54, 55, 62] {
+        for d in [-6i64, -3, -2, -1, 0, 1, 2, 3, 6] {
+            g.push((1i64 << k) + d);
+            g.push(-(1i64 << k) + d);
+        }
+    }
+    // around the last f64 values below 2^63 (spacing 1024) and f32 values (spacing 2^39)
+    for d in [511i64, 512, 513, 1023, 1024, 1025, 1535, 1536, 1537] {
+        g.push(i64::MAX - d);
+        g.push(i64::MIN + d);
+    }
+    for d in [(1i64 << 38) - 1, 1 << 38, (1 << 38) + 1, (3 << 38) - 1, 3 << 38, (3 << 38) + 1] {
+        g.push(i64::MAX - d);
+    }
+    g.sort();
+    g.dedup();
+    g
+}
+
+fn u32_grid() -> Vec<u32> {
+    let mut g = vec![0u32, 1, 2, u32::MAX, u32::MAX - 1, i32::MAX as u32, i32::MAX as u32 + 1, i32::MAX as u32 + 2];
+    for k in [23u32, 24, 25, 31] {
+        for d in [-3i64, -2, -1, 0, 1, 2, 3] {
+            g.push(((1i64 << k) + d) as u32);
+        }
+    }
+    for d in [63u32, 64, 65, 127, 128, 129, 191, 192, 193] {
+        g.push(u32::MAX - d);
+    }
+    g.sort();
+    g.dedup();
+    g
+}
+
+fn u64_grid() -> Vec<u64> {
+    let mut g: Vec<u64> = u32_grid().into_iter().map(|v| v as u64).collect();
+    g.extend([u64::MAX, u64::MAX - 1, i64::MAX as u64, i64::MAX as u64 + 1, i64::MAX as u64 + 2]);
+    for k in [32u32, 52, 53, 54, 55, 62, 63] {
+        for d in [-6i128, -3, -2, -1, 0, 1, 2, 3, 6] {
+            g.push(((1i128 << k) + d) as u64);
+        }
+    }
+    for d in [1023u64, 1024, 1025, 2047, 2048, 2049, 3071, 3072, 3073] {
+        g.push(u64::MAX - d);
+    }
+    for d in [(1u64 << 39) - 1, 1 << 39, (1 << 39) + 1, (3 << 39) - 1, 3 << 39, (3 << 39) + 1] {
+        g.push(u64::MAX - d);
+    }
+    g.sort();
+    g.dedup();
+    g
+}
+
+fn f64_grid() -> Vec<u64> {
+    let mut g: Vec<u64> = Vec::new();
+    let mut both = |b: u64| {
+        g.push(b);
+        g.push(b | (1 << 63));
+    };
+    for b in [
+        0u64,
+        1,                     // smallest subnormal
+        2,
+        0x000f_ffff_ffff_ffff, // largest subnormal
+        0x0010_0000_0000_0000, // smallest normal
+        0x7fef_ffff_ffff_ffff, // largest finite
+        0x7ff0_0000_0000_0000, // inf
+        0x7ff0_0000_0000_0001, // signalling NaN
+        0x7ff8_0000_0000_0000, // quiet NaN
+        0x7ff8_0000_2000_0000,
+        0x7fff_ffff_ffff_ffff,
+        0x7ff4_0000_0000_0000,
+    ] {
+        both(b);
+    }
+    for v in [
+        0.5f64,
+        0.999_999_999_999_999_9,
+        1.0,
+        1.000_000_000_000_000_2,
+        1.5,
+        2.0,
+        2.5,
+        0.1,
+        255.5,
+        16_777_215.0,
+        16_777_216.0,
+        16_777_217.0,
+        16_777_218.0,
+        2_147_483_646.5,
+        2_147_483_647.0,
+        2_147_483_647.5,
+        2_147_483_648.0,
+        2_147_483_648.5,
+        2_147_483_649.0,
+        4_294_967_295.0,
+        4_294_967_295.5,
+        4_294_967_296.0,
+        9_007_199_254_740_991.0,
+        9_007_199_254_740_992.0,
+        9_007_199_254_740_994.0,
+        9_223_372_036_854_774_784.0, // prev(2^63)
+        9_223_372_036_854_775_808.0, // 2^63
+        9_223_372_036_854_777_856.0, // next(2^63)
+        18_446_744_073_709_549_568.0, // prev(2^64)
+        18_446_744_073_709_551_616.0, // 2^64
+        18_446_744_073_709_555_712.0, // next(2^64)
+        1e19,
+        1e300,
+        // f32 boundaries seen from f64
+        f32::MAX as f64,
+        3.402_823_567_797_336_6e38, // f32::MAX + half an ulp (tie → inf)
+        3.402_823_567_797_336_5e38,
+        3.5e38,
+        f32::MIN_POSITIVE as f64,
+        1.175_494_280_757_364_3e-38, // just below the smallest f32 normal
+        1.401_298_464_324_817e-45,   // smallest f32 subnormal
+        7.006_492_321_624_085e-46,   // half of it (tie → 0)
+        7.006_492_321_624_087e-46,   // just above (→ smallest subnormal)
+        2.101_947_696_487_225_6e-45, // 1.5 × smallest (tie → 2 × smallest)
+        1e-50,
+        16_777_216.0 + 1.0,
+        16_777_218.0 + 1.0, // tie between 16777218 and 16777220 in f32
+        33_554_434.0,
+    ] {
+        both(v.to_bits());
+    }
+    g.sort();
+    g.dedup();
+    g
+}
+
+fn f32_grid() -> Vec<u32> {
+    let mut g: Vec<u32> = Vec::new();
+    let mut both = |b: u32| {
+        g.push(b);
+        g.push(b | (1 << 31));
+    };
+    for b in [
+        0u32, 1, 2, 0x007f_ffff, 0x0080_0000, 0x7f7f_ffff, 0x7f80_0000, 0x7f80_0001, 0x7fc0_0000, 0x7fc0_0001,
+        0x7fff_ffff, 0x7fa0_0000,
+    ] {
+        both(b);
+    }
+    for v in [
+        0.5f32,
+        0.999_999_94,
+        1.0,
+        1.5,
+        2.5,
+        0.1,
+        8_388_607.5,
+        16_777_215.0,
+        16_777_216.0,
+        16_777_218.0,
+        2_147_483_520.0, // prev(2^31)
+        2_147_483_648.0,
+        2_147_483_904.0, // next(2^31)
+        4_294_967_040.0, // prev(2^32)
+        4_294_967_296.0,
+        9_007_199_254_740_992.0,
+        9_223_371_487_098_961_920.0, // prev(2^63)
+        9_223_372_036_854_775_808.0,
+        18_446_742_974_197_923_840.0, // prev(2^64)
+        18_446_744_073_709_551_616.0,
+        1e30,
+    ] {
+        both(v.to_bits());
+    }
+    g.sort();
+    g.dedup();
+    g
+}
+
+fn blob_value_grid() -> Vec<Vec<u8>> {
+    vec![
+        vec![],
+        b"a".to_vec(),
+        b"ab".to_vec(),
+        b"abc".to_vec(),
+        b"b".to_vec(),
+        vec![0],
+        vec![0, 0],
+        vec![0x7f],
+        vec![0x80],
+        vec![0xff],
+        b"abcdefgh".to_vec(),
+        b"abcdefghi".to_vec(),
+        b"abcdefghj".to_vec(),
+        b"abcdefgh\x00".to_vec(),
+        vec![b'z'; 64],
+        vec![b'z'; 65],
+        vec![b'z'; 300],
+        {
+            let mut v = vec![b'z'; 300];
+            v[200] = b'y';
+            v
+        },
+        "é€😀".as_bytes().to_vec(),
+    ]
+}
+
+/// Every boundary value of every kind, in the line syntax.
+fn value_grid() -> Vec<String> {
+    let mut g = vec!["n".to_string(), "b:0".into(), "b:1".into()];
+    g.extend(i32_grid().iter().map(|v| format!("i:{}", v)));
+    g.extend(i64_value_grid().iter().map(|v| format!("I:{}", v)));
+    g.extend(u32_grid().iter().map(|v| format!("u:{}", v)));
+    g.extend(u64_grid().iter().map(|v| format!("U:{}", v)));
+    g.extend(f32_grid().iter().map(|v| format!("f:{}", v)));
+    g.extend(f64_grid().iter().map(|v| format!("d:{}", v)));
+    g.extend(blob_value_grid().iter().map(|v| format!("x:{}", hex_or_dash(v))));
+    g
+}
+
+fn rand_f64_bits(rng: &mut Rng) -> u64 {
+    match rng.below(6) {
+        0 => *rng.pick(&f64_grid()),
+        1 => rng.next_u64(),
+        2 => (rng.range(-70000, 70000) as f64 / 4.0).to_bits(),
+        3 => {
+            // an integer-valued or near-integer double of any magnitude
+            let e = rng.below(70) as i32;
+            let m = (rng.next_u64() >> 11) as f64 / (1u64 << 53) as f64 + 1.0;
+            let v = m * 2f64.powi(e);
+            (if rng.chance(1, 2) { v } else { -v }).to_bits()
+        }
+        4 => (rand_i64(rng) as f64).to_bits(),
+        _ => {
+            // neighbours of a grid value
+            let b = *rng.pick(&f64_grid());
+            b.wrapping_add(rng.range(-2, 2) as u64)
+        }
+    }
+}
+
+fn rand_f32_bits(rng: &mut Rng) -> u32 {
+    match rng.below(5) {
+        0 => *rng.pick(&f32_grid()),
+        1 => rng.next_u64() as u32,
+        2 => (rng.range(-70000, 70000) as f32 / 4.0).to_bits(),
+        3 => (rand_i64(rng) as f32).to_bits(),
+        _ => rng.pick(&f32_grid()).wrapping_add(rng.range(-2, 2) as u32),
+    }
+}
+
+fn rand_value(rng: &mut Rng) -> String {
+    match rng.below(16) {
+        0 => "n".into(),
+        1 => format!("b:{}", rng.below(2)),
+        2 | 3 => format!("i:{}", if rng.chance(1, 2) { *rng.pick(&i32_grid()) } else { rand_i64(rng) as i32 }),
+        4 | 5 | 6 => format!("I:{}", if rng.chance(1, 2) { *rng.pick(&i64_value_grid()) } else { rand_i64(rng) }),
+        7 => format!("u:{}", if rng.chance(1, 2) { *rng.pick(&u32_grid()) } else { rng.next_u64() as u32 }),
+        8 | 9 => format!("U:{}", if rng.chance(1, 2) { *rng.pick(&u64_grid()) } else { rand_i64(rng) as u64 }),
+        10 | 11 => format!("f:{}", rand_f32_bits(rng)),
+        12 | 13 | 14 => format!("d:{}", rand_f64_bits(rng)),
+        _ => format!("x:{}", hex_or_dash(&rand_blob(rng))),
+    }
+}
+
+fn kind_tag(v: &str) -> &'static str {
+    match v.as_bytes()[0] {
+        b'n' => "k-null",
+        b'b' => "k-bool",
+        b'i' => "k-int",
+        b'I' => "k-bigint",
+        b'u' => "k-uint",
+        b'U' => "k-biguint",
+        b'f' => "k-float",
+        b'd' => "k-double",
+        _ => "k-blob",
+    }
+}
+
+fn gen_serialize(rng: &mut Rng, scale: u64, cases: &mut Vec<Case>) {
+    let grid = value_grid();
+    for v in &grid {
+        cases.push(Case::new(format!("ser {}", v), &["ser", "grid", kind_tag(v), "nt"]));
+    }
+    for _ in 0..1500 * scale {
+        let v = rand_value(rng);
+        cases.push(Case::new(format!("ser {}", v), &["ser", "random", kind_tag(&v), "nt"]));
+    }
+    // write at every cursor residue, with and without room behind the value
+    for v in grid.iter().filter(|v| *v != "n") {
+        let c = rng.below(17);
+        let extra = *rng.pick(&[0u64, 0, 1, 3, 8]);
+        let t = if extra == 0 { "wr-exact-fit" } else { "wr-room-behind" };
+        cases.push(Case::new(format!("wr {} {} {}", v, c, extra), &["wr", "grid", t, kind_tag(v), "nt"]));
+    }
+    for _ in 0..1500 * scale {
+        let v = rand_value(rng);
+        if v == "n" {
+            continue;
+        }
+        let c = rng.below(33);
+        let extra = *rng.pick(&[0u64, 0, 1, 2, 7, 8, 9]);
+        let t = if extra == 0 { "wr-exact-fit" } else { "wr-room-behind" };
+        cases.push(Case::new(format!("wr {} {} {}", v, c, extra), &["wr", "random", t, kind_tag(&v), "nt"]));
+    }
+    // deserialize from buffers that hold arbitrary bytes (every bit pattern is some value) — long enough that the
+    // fixed-size kinds never run off the end (that is a slice panic in the code, outside this property)
+    for _ in 0..1500 * scale {
+        let (kname, kind) = *rng.pick(&KINDS[1..]);
+        let c = rng.below(12) as usize;
+        let (bs, tag) = if kind == DataTypeKind::Blob {
+            let mut bs = rng.bytes(c);
+            let t = match rng.below(3) {
+                0 => {
+                    bs.extend(Blob::from_unencoded_slice(&rand_blob(rng)).as_ref());
+                    bs.extend(rng.rbytes(0, 4));
+                    "de-valid"
+                }
+                1 => {
+                    let e = Blob::from_unencoded_slice(&rand_blob(rng));
+                    let e = e.as_ref();
+                    bs.extend(&e[..rng.below(e.len() as u64) as usize]);
+                    "de-truncated"
+                }
+                _ => {
+                    bs.extend(rng.rbytes(0, 12));
+                    "de-random"
+                }
+            };
+            (bs, t)
+        } else {
+            let need = align_up(c, kind.align()) + kind.fixed_size().unwrap_or(0);
+            let extra = rng.below(4) as usize;
+            let mut bs = rng.bytes(need + extra);
+            if kind == DataTypeKind::Bool && rng.chance(1, 2) {
+                bs[c] = rng.below(3) as u8;
+            }
+            (bs, "de-random")
+        };
+        cases.push(Case::new(format!("de {} {} {}", kname, c, hex_or_dash(&bs)), &["de", tag, kname, "nt"]));
+    }
+    cases.push(Case::new("de null 0 00".into(), &["de", "null", "nt"]));
+    cases.push(Case::new("de bool 0 -".into(), &["de", "bool", "nt"]));
+}
+
+fn gen_cast(rng: &mut Rng, scale: u64, cases: &mut Vec<Case>) {
+    // exhaustive: every grid value to every kind
+    for v in value_grid() {
+        for (kname, _) in KINDS.iter() {
+            let t = format!("to-{}", kname);
+            cases.push(Case::new(format!("cast {} {}", v, kname), &["cast", "grid", kind_tag(&v), &t, "nt"]));
+        }
+    }
+    for _ in 0..6000 * scale {
+        let v = rand_value(rng);
+        let (kname, _) = *rng.pick(&KINDS);
+        let t = format!("to-{}", kname);
+        cases.push(Case::new(format!("cast {} {}", v, kname), &["cast", "random", kind_tag(&v), &t, "nt"]));
     }
 }
 
